@@ -19,7 +19,7 @@ NOT_MODELLED = ("vector constraints; parameter-dependent (symbolic) bounds; deri
                 "(known finding C06-t0-derivative: the history slope computed for it is lost)")
 ASSUMPTIONS = []
 
-FEAT = {"objective": True, "path": True, "history": True, "bounds": False, "pvars": True}
+FEAT = {"objective": True, "path": True, "history": True, "bounds": False, "pvars": True, "extra_cin": True, "cin_axis": True}
 
 
 def run(ctx):
